@@ -97,7 +97,7 @@ def run(ctx):
             await peers.simple_get(rec, sq.port, url, vid='warm')
             s = socket.socket(socket.AF_INET, socket.SOCK_DGRAM)
             s.setblocking(False)
-            reps = 5 if ctx.thorough else 1
+            reps = 12 if ctx.thorough else 1
             for sc in scens * reps:
                 par = sc['par']
                 port = {'icp2': icp_p, 'icp3': icp_p, 'htcp': htcp_p, 'snmp': snmp_p}[par['proto']]
